@@ -160,6 +160,9 @@ def run(ctx):
     # ------------------------------------------------------------------ R4
     crosscheck(ctx, "C11.R4", BP + ".push_prefix", RS, "push_prefix", BP,
                "leading-dot prefix composes with the top of the stack")
+    crosscheck(ctx, "C11.R4", BP + ".get_key_info", RS, "get_key_info", BP,
+               "a key's datatype name is resolved when the key is read, "
+               "under the prefix then in effect")
     crosscheck(ctx, "C11.R4", BP + ".pop_prefix", RS, "pop_prefix", BP,
                "pops the top")
     crosscheck(ctx, "C11.R4", BP + ".get_classname", RS, "get_classname", BP,
